@@ -78,8 +78,14 @@ func (p *diffProp) Gen(seed uint64, tier string, i int) Case {
 		for k := 0; k < 1+r.Intn(2); k++ {
 			AddTwin(r, &c.Dataset, c.Window, genLookback, false, r.P(0.7))
 		}
-		c.Dataset.Normalize()
 		c.Query = Pick(r, c07Twins)
+		if r.P(0.15) {
+			// the same for histograms: buckets of two metrics with equal labels
+			AddHistogramTwins(r, &c.Dataset, c.Window, genLookback)
+			c.Query = Pick(r, []string{`histogram_quantile(0.5, {__name__=~".+_bucket"})`, `histogram_quantile(0.9, rate({__name__=~"h_bucket|g_bucket"}[2m]))`,
+				`histogram_quantile(0.5, {le=~".+"})`, `sum by (a) (histogram_quantile(0.5, {__name__=~".+_bucket"}))`})
+		}
+		c.Dataset.Normalize()
 		if (p.id == "C06" || p.extreme) && r.P(0.3) {
 			c.NParts = 2
 			c.Engine.Opt = "none"
